@@ -172,6 +172,43 @@ def run(ctx):
         ctx.ob("R4", "skip-not-under-depth", ok4,
                "walkdir contract W2: with contents_first(true) the yielded directory has already been popped, so skip_current_dir() pops its *parent* and drops the remaining siblings; the call must be guarded by !config.depth_first "
                "(\"under -depth, -prune changes nothing\"). Dominating guards: %s" % prim.guards_fmt(gs), fn=pf, where=prim.site(pf, b), how="dominating guard (API contract W2)")
+    # W5: a directory on another file system is yielded but not entered
+    sfs = [(b, t) for b, t in pf.calls() if t.callee == "walkdir::WalkDir::same_file_system"]
+    may_stay = [(b, t) for b, t in sfs if not (prim.origin_of_operand(pf, t.args[1]).strip().k == "const" and prim.origin_of_operand(pf, t.args[1]).strip().a.get("v") is False)]
+    if may_stay and skips:
+        sb = skips[0][0]
+        starts = [gg_b for gg_b in pf.reachable() if pf.blocks[gg_b].term.k == "switch" and (lambda o: o.k == "call" and o.a["callee"].endswith("::should_skip_current_dir"))(prim.switch_pred(pf, gg_b).strip())]
+        removed = set()
+        classes = set()
+        is0 = lambda x: x.strip().k == "const" and x.strip().a.get("v") == 0
+        depth_of = lambda x: any(c.a["name"] == "depth" for c in x.call_nodes())
+        dev_of = lambda x: any(c.a["name"] in ("device_of", "dev", "st_dev") for c in x.call_nodes())
+        for b in pf.reachable():
+            for tgt, atoms in prim.edge_atoms(pf, b):
+                for at in atoms:
+                    a_, b_ = at["a"].strip(), at["b"].strip()
+                    if (at["rel"] == "ne" and a_.k == "field" and a_.a == "same_file_system" and b_.k == "const" and b_.a.get("v") is True) or \
+                       (at["rel"] == "eq" and a_.k == "field" and a_.a == "same_file_system" and b_.k == "const" and b_.a.get("v") is False):
+                        removed.add((b, tgt)); classes.add("not -xdev")
+                    elif prim.atom_holds([at], "le", depth_of, is0) or prim.atom_holds([at], "eq", depth_of, is0):
+                        removed.add((b, tgt)); classes.add("starting point")
+                    elif at["rel"] == "eq" and dev_of(at["a"]) and dev_of(at["b"]) and (any(x.k == "arg" and x.a["name"] == "dir" for x in at["a"].walk()) != any(x.k == "arg" and x.a["name"] == "dir" for x in at["b"].walk())):
+                        removed.add((b, tgt)); classes.add("same device")
+        seen = set()
+        st = [t_ for s_ in starts for t_, ats in prim.edge_atoms(pf, s_) if any(a["rel"] == "eq" and a["b"].strip().a.get("v") is True for a in ats if a["b"].strip().k == "const")]
+        while st:
+            x = st.pop()
+            if x in seen or x == sb:
+                seen.add(x)
+                continue
+            seen.add(x)
+            for s_ in pf.succs(x):
+                if (x, s_) not in removed and s_ not in seen:
+                    st.append(s_)
+        ctx.ob("R4", "skip-only-entered-directory", bool(starts) and sb not in seen,
+               "walkdir contract W5: with same_file_system(true) a directory on another file system (depth > 0) is yielded but not entered, so skip_current_dir() would pop its *parent* and lose the remaining siblings; "
+               "every path from should_skip_current_dir()==true to the skip must establish one of: -xdev off, depth 0, or the entry's device equals the starting point's (classes seen: %s)" % sorted(classes),
+               fn=pf, where=prim.site(pf, sb), how="edge-removal reachability (API contract W5)")
     # the mark is honoured: from should_skip==true (and not depth_first) the loop cannot fetch the next entry without skipping
     for n in gg.nodes("should_skip"):
         tr = gg.succ(n, "else")
